@@ -15,7 +15,7 @@ LEVEL = "exploration"
 RULE = ("hostile inputs - random bytes (several distributions, 0..64 KiB), valid streams with bit flips / byte inserts / deletes "
         "/ splices / truncation, and structure-aware hostile streams from the independent wire encoder (declared frame, row and "
         "string lengths up to 2^63, table sizes up to 2^32, 10^5 entries, quoted triples nested past the protobuf recursion "
-        "limit, options rows in odd places, options rows with enum/version values the schema does not name, well-formed streams whose strings (language tag, lexical form, datatype, name, prefix, blank-node label, stream name, namespace name) are long single-class runs ending in one odd character, 10^3..10^6 empty frames alone and in front of a well-formed frame (3*10^5 of them always through all six entry points, 10^6 through two), invalid UTF-8, unknown fields, groups) - are fed from BytesIO, "
+        "limit, options rows in odd places, gzip/zlib/bz2/xz/deflate members that would inflate to 0.3-64 MB, options rows with enum/version values the schema does not name, well-formed streams whose strings (language tag, lexical form, datatype, name, prefix, blank-node label, stream name, namespace name) are long single-class runs ending in one odd character, 10^3..10^6 empty frames alone and in front of a well-formed frame (3*10^5 of them always through all six entry points, 10^6 through two), invalid UTF-8, unknown fields, groups) - are fed from BytesIO, "
         "real files and non-seekable raw / buffered sources to the six parse entry points inside a watchdogged child process with faulthandler. Per input the "
         "child journals start/end, outcome, CPU time, a logical step count (sys.monitoring PY_START inside pyjelly) and the "
         "growth of the resident high-water mark. Violations: interpreter killed by a signal; a non-Exception BaseException; "
@@ -113,7 +113,7 @@ def hostile(rng):
     big = rng.choice([1 << 20, (1 << 31) - 1, 1 << 31, 1 << 32, 1 << 40, 1 << 62, (1 << 63) - 1, (1 << 64) - 1])
     kind = rng.choice(["frame-length", "row-length", "string-length", "table-size", "many-entries", "deep-nesting",
                        "odd-options", "empty-frames", "bad-utf8", "unknown-fields", "many-metadata", "nondelimited-huge",
-                       "entry-id-huge", "ref-huge", "options-repeat-flood", "awkward-strings", "awkward-strings", "enum-values"])
+                       "entry-id-huge", "ref-huge", "options-repeat-flood", "awkward-strings", "awkward-strings", "enum-values", "compressed-bomb"])
     head = wire.enc_stream([{"rows": [("options", _opts())]}], True)
     if kind == "frame-length":
         return kind, rng.choice([b"", head]) + wire.enc_varint(big) + rng.randbytes(rng.randint(0, 40))
@@ -160,6 +160,29 @@ def hostile(rng):
         frames = [{"rows": [("options", _opts())], "metadata": [(f"k{i}", b"v" * 10) for i in range(500)]}] + \
             [{"rows": [], "metadata": [("k", b"v")]} for _ in range(2000)]
         return kind, wire.enc_stream(frames, True)
+    if kind == "compressed-bomb":
+        # a few hundred bytes that INFLATE to megabytes if anything on the way decompresses them: Jelly has no compressed
+        # container, so the parser must treat them as the (invalid) bytes they are
+        import bz2
+        import gzip
+        import lzma
+        import zlib
+        payload = rng.choice([b"\x00" * 300_000, b"\x00" * 3_000_000,
+                              b"\x0a\x7f" + b"\x0a" * (64 << 20) if rng.random() < .3 else b"\x00" * 1_000_000,
+                              wire.enc_stream([{"rows": [("options", _opts())]}], True) + b"\x00" * 2_000_000])
+        how = rng.choice(["gzip", "gzip", "zlib", "bz2", "xz", "raw-deflate"])
+        if how == "gzip":
+            data = gzip.compress(payload, mtime=0)
+        elif how == "zlib":
+            data = zlib.compress(payload, 9)
+        elif how == "bz2":
+            data = bz2.compress(payload)
+        elif how == "xz":
+            data = lzma.compress(payload)
+        else:
+            co = zlib.compressobj(9, zlib.DEFLATED, -15)
+            data = co.compress(payload) + co.flush()
+        return kind, data
     if kind == "enum-values":
         # well-formed options row whose enum / version fields hold values the schema does not name (proto3 enums are open)
         odd = [5, 6, 7, 12, 15, 23, 77, 104, 113, 115, 214, 1000, (1 << 31) - 1, -1]
